@@ -50,6 +50,10 @@ void UncompressedFile::read(char * s, std::streamsize n) {
     if (n + m_tellg > m_fileSize) {
         n = m_fileSize - m_tellg;
         m_rdstate = std::ios_base::eofbit | std::ios_base::failbit;
+    } else if (n + m_tellg > m_tellp) {
+        /* aborted before the data arrived */
+        n = std::max(static_cast<std::streamsize>(m_tellp - m_tellg), static_cast<std::streamsize>(0));
+        m_rdstate = std::ios_base::eofbit | std::ios_base::failbit;
     } else
         m_rdstate = std::ios_base::goodbit;
 
